@@ -7,6 +7,7 @@ from ..interp import alternatives, analyze, analyze_precise, truth
 from ..model import AnalysisError, Model
 from ..oracle import NFKC_SCREEN, REG_NAME_LOWER
 from ..report import Ctx, where
+from ..strtpl import flatten
 from ..terms import NONE, show, walk
 from .immut import is_public, pkg_funcs
 
@@ -30,9 +31,34 @@ class Lower:
         self.why = []
 
     def zone(self, t):
+        """The zone id: the text after the first '%' of the host, however it is cut out."""
         # third element of <host>.partition("%")
-        return t[0] in ("item", "sub") and t[1][0] == "call" and t[1][1][0] == "attr" and t[1][1][2] == "partition" \
-            and t[1][2] == (("const", "%"),) and (t[2] == 2 or t[2] == ("const", 2))
+        if t[0] in ("item", "sub") and t[1][0] == "call" and t[1][1][0] == "attr" and t[1][1][2] == "partition" \
+                and t[1][2] == (("const", "%"),) and (t[2] == 2 or t[2] == ("const", 2)):
+            return True
+        # <host>[<host>.find("%") + 1:]
+        if t[0] == "sub" and t[2][0] == "slice" and t[2][2] == ("const", None) and t[2][1][0] == "binop" and t[2][1][1] == "Add":
+            a, b = t[2][1][2], t[2][1][3]
+            pos = a if b == ("const", 1) else (b if a == ("const", 1) else None)
+            if pos is not None and pos[0] == "call" and pos[1] == ("attr", t[1], "find") and pos[2][:1] == (("const", "%"),):
+                return True
+        # <host>.split("%", 1)[1]
+        if t[0] in ("item", "sub") and (t[2] == 1 or t[2] == ("const", 1)) and t[1][0] == "call" and t[1][1][0] == "attr" \
+                and t[1][1][2] == "split" and t[1][2] == (("const", "%"), ("const", 1)):
+            return True
+        return False
+
+    def zone_parts(self, t):
+        """Values a host template carries in zone-id position: cut out after the '%' of the argument, or written
+        right after a literal '%' (RFC 6874: whatever follows the '%' of an IP literal is the zone id)."""
+        parts = flatten(t)
+        out = []
+        for i, p in enumerate(parts):
+            if p[0] != "val":
+                continue
+            if self.zone(p[1]) or (i and parts[i - 1][0] == "lit" and parts[i - 1][1].endswith("%")):
+                out.append(p[1])
+        return out
 
     def sep(self, t):
         return t[0] in ("item", "sub") and t[1][0] == "call" and t[1][1][0] == "attr" and t[1][1][2] == "partition" \
@@ -68,14 +94,26 @@ class Lower:
                         self.why.append(f"{target.qual} returns {show(v)[:70]}")
                 return ok
             return False
-        if tag == "fstr":
-            return all(p[0] == "const" and p[1] == p[1].lower() or p[0] == "fmt" and (self.zone(p[1]) or self.lower(p[1], depth + 1))
-                       for p in t[1])
         if tag == "sub" and t[2][0] == "slice":
             return self.lower(t[1], depth + 1)
-        if tag == "binop" and t[1] == "Add":
-            return self.lower(t[2], depth + 1) and self.lower(t[3], depth + 1)
+        parts = flatten(t)
+        if parts != [("val", t)]:
+            # a template (f-string, concatenation, format, ...): every literal and every value except the zone id
+            zones = self.zone_parts(t)
+            return all(p[0] == "lit" and p[1] == p[1].lower() or
+                       p[0] == "val" and (p[1] in zones or self.lower(p[1], depth + 1)) for p in parts)
         return False
+
+
+def no_match(facts, pred):
+    """The path knows that the reg-name pattern found nothing in a text satisfying pred (`if m`, `m is None`, walrus: any
+    spelling of the test)."""
+    for k in facts:
+        for c in (k, k[2] if k[0] == "cmp" and k[1] == "Is" and k[3] == NONE else None):
+            if c is not None and c[0] == "call" and c[1][0] == "attr" and c[1][1] == ("global", "_url", "NOT_REG_NAME") \
+                    and c[1][2] == "search" and c[2] and pred(c[2][0]) and truth(c, facts) is False:
+                return True
+    return False
 
 
 def h1(ctx: Ctx):
@@ -97,6 +135,17 @@ def h1(ctx: Ctx):
                where(fi, node), sample="lower() / ip.compressed / idna.encode(uts46=True)")
 
 
+def bracketed_values(t):
+    """Values a string template puts between '[' and ']' (f-string, concatenation, format, %: all the same)."""
+    parts = flatten(t)
+    out = []
+    for i in range(1, len(parts) - 1):
+        if parts[i][0] == "val" and parts[i - 1][0] == "lit" and parts[i - 1][1].endswith("[") and \
+                parts[i + 1][0] == "lit" and parts[i + 1][1].startswith("]"):
+            out.append(parts[i][1])
+    return out
+
+
 def h2(ctx: Ctx):
     """Brackets are added exactly for hosts containing ':' (IPv6 / IPvFuture), with the same predicate everywhere."""
     model = ctx.model
@@ -112,19 +161,20 @@ def h2(ctx: Ctx):
                 if not (isinstance(val, tuple) and val and isinstance(val[0], str)):
                     continue
                 for t in walk(val):
-                    if t[0] != "fstr" or len(t[1]) < 3 or t[1][0] != ("const", "[") or t[1][1][0] != "fmt":
+                    if not (t[0] == "fstr" or (t[0] == "binop" and t[1] in ("Add", "Mod")) or
+                            (t[0] == "call" and t[1][0] == "attr" and t[1][2] in ("format", "join"))):
                         continue
-                    x = t[1][1][1]
-                    key = (show(t), frozenset(e.state.facts.items()))
-                    if key in seen:
-                        continue
-                    seen.add(key)
-                    ctx.instance(rule)
-                    colon = truth(("cmp", "In", ("const", ":"), x), e.state.facts) is True
-                    v6 = any(fv and k[0] == "cmp" and k[1] == "Eq" and k[3] == ("const", 6) and "version" in show(k[2]) for k, fv in e.state.facts.items())
-                    ctx.ob(rule, fi.qual, show(t), colon or v6,
-                           f"brackets are added around {show(x)} without `':' in host` (or an IPv6 check) being established",
-                           where(fi, e.node), sample="':' in host" if colon else "ip.version == 6")
+                    for x in bracketed_values(t):        # "[" <x> "]" in any spelling
+                        key = (show(x), frozenset(e.state.facts.items()))
+                        if key in seen:
+                            continue
+                        seen.add(key)
+                        ctx.instance(rule)
+                        colon = truth(("cmp", "In", ("const", ":"), x), e.state.facts) is True
+                        v6 = any(fv and k[0] == "cmp" and k[1] == "Eq" and k[3] == ("const", 6) and "version" in show(k[2]) for k, fv in e.state.facts.items())
+                        ctx.ob(rule, fi.qual, show(t), colon or v6,
+                               f"brackets are added around {show(x)} without `':' in host` (or an IPv6 check) being established",
+                               where(fi, e.node), sample="':' in host" if colon else "ip.version == 6")
     # and the unbracketed alternative is only chosen when there is no ':'
     for name in ("host_subcomponent", "host_port_subcomponent"):
         fi = model.func(f"_url.URL.{name}")
@@ -132,8 +182,7 @@ def h2(ctx: Ctx):
         for s, v, node in r.returns:
             if v == NONE:
                 continue
-            bracketed = v[0] == "fstr" and v[1][0] == ("const", "[")
-            if bracketed:
+            if bracketed_values(v):
                 continue
             raws = [t for t in walk(v) if t[0] in ("attr", "call") and "raw_host" in show(t)]
             if not raws:
@@ -259,14 +308,12 @@ def ord3_ord5c(ctx: Ctx):
             # an IP literal is canonicalised by the ipaddress library; any *other* text spliced into the result (the zone
             # id) comes straight from the argument and must have been validated too
             lw = Lower(model, fi, r)
-            raw_parts = [p[1] for p in (v[1] if v[0] == "fstr" else ()) if p[0] == "fmt" and lw.zone(p[1])]
+            raw_parts = lw.zone_parts(v)
             for part in raw_parts:
-                okz = any((not fv) and k[0] == "call" and k[1][0] == "attr" and k[1][1] == ("global", "_url", "NOT_REG_NAME") and k[2]
-                          and any(t == part for t in walk(k[2][0])) for k, fv in s.facts.items())
+                okz = no_match(s.facts, lambda arg: any(t == part for t in walk(arg)))
                 seen.setdefault((id(node), "zone"), [node, ("fstr", (("const", "zone id of "), ("fmt", v, None, None))), []])[2].append(okz)
             continue
-        ok = any((not fv) and k[0] == "call" and k[1][0] == "attr" and k[1][1] == ("global", "_url", "NOT_REG_NAME") and k[2] and k[2][0] == v
-                 for k, fv in s.facts.items())
+        ok = no_match(s.facts, lambda arg: arg == v)
         seen.setdefault(id(node), [node, v, []])[2].append(ok)
     for key, (node, v, oks) in seen.items():
         ctx.instance(rule)
